@@ -129,6 +129,34 @@ func limitComparison(x *ssa.BinOp) string {
 	if k < 1000 && k > -1000 { // small constants are capacity heuristics and loop bounds, not limits
 		return ""
 	}
+	// a limit check: the comparison decides a branch one side of which builds or returns an error
+	guardsError := false
+	for _, ref := range core.Referrers(x) {
+		iff, ok := ref.(*ssa.If)
+		if !ok {
+			continue
+		}
+		for _, sc := range iff.Block().Succs {
+			for _, in := range sc.Instrs {
+				if call, ok := in.(*ssa.Call); ok {
+					res := call.Call.Signature().Results()
+					for i := 0; i < res.Len(); i++ {
+						if n, ok := res.At(i).Type().(*types.Named); ok && n.Obj().Name() == "error" && n.Obj().Pkg() == nil {
+							guardsError = true
+						}
+						if pt, ok := res.At(i).Type().(*types.Pointer); ok {
+							if n := core.NamedOf(pt.Elem()); n != nil && n.Obj().Name() == "Error" {
+								guardsError = true
+							}
+						}
+					}
+				}
+			}
+		}
+	}
+	if !guardsError {
+		return ""
+	}
 	return sprintf("compare %s %d", op, k)
 }
 
